@@ -180,10 +180,11 @@ func atomBase(a string) (string, bool) {
 func runC12(c *Ctx) {
 	R := c.R
 	_, s := c.Std()
-	f := c.A.Func("(*Conn).handleGreet")
-	if f == nil {
+	f0 := c.A.Func("(*Conn).handleGreet")
+	if f0 == nil {
 		return
 	}
+	f := capsFunc(c)
 	R.Rule("R-caps-table", "E8 table agreement + E3 guard facts", "each capability is listed under exactly the configuration condition the property states, on all configurations; parametrised capabilities carry the configured values; nothing else is listed", 14)
 	caps, problems := extractCaps(c, f)
 	for _, p := range problems {
@@ -270,7 +271,11 @@ func runC12(c *Ctx) {
 	ruleAuthAllowedDef(c) // the table's atom authAllowed() must mean "TLS or AllowInsecureAuth"
 
 	R.Rule("R-caps-reply", "E3+E4", "the capability list is sent only for EHLO/LHLO; HELO's reply carries the greeting text only", 2)
-	for _, site := range s.Find(f, "reply:250") {
+	var sites250 []ssa.Instruction
+	for _, g := range c.withHelpers(f0) {
+		sites250 = append(sites250, s.Find(g, "reply:250")...)
+	}
+	for _, site := range sites250 {
 		cc := callCommon(site)
 		kind := "helper"
 		if ea := replyEnhArg(site); ea != nil {
@@ -278,12 +283,31 @@ func runC12(c *Ctx) {
 		}
 		direct := isStaticCall(site, "(*Conn).writeResponse")
 		if kind == "none" {
-			c.obUnreach("capability reply", site, `param1 == false`)
+			// the greeting's own parameter decides: for a reply written by a helper the question is asked at the
+			// helper's call sites in handleGreet
+			if site.Parent() != f0 {
+				for _, cs := range c.callersOf(site.Parent()) {
+					if cs.Parent() == f0 {
+						c.obUnreach("capability reply (helper call)", cs, `param1 == false`)
+					}
+				}
+			} else {
+				c.obUnreach("capability reply", site, `param1 == false`)
+			}
 			if direct {
 				d := describe(cc.Args[3])
 				R.Ob(c.siteKey(site, "capability reply carries the built list"), c.P.InstrPos(site), strings.HasPrefix(d, "builtin:append("), "EHLO reply text is "+d)
 			}
 		} else {
+			if site.Parent() != f0 {
+				// a reply helper (c.ok(text) and the like): judged where handleGreet calls it
+				for _, cs := range c.callersOf(site.Parent()) {
+					if cs.Parent() == f0 {
+						c.obUnreach("HELO reply (helper call)", cs, `param1 == true`)
+					}
+				}
+				continue
+			}
 			c.obUnreach("HELO reply", site, `param1 == true`)
 			if direct {
 				d := describeVarargs(cc.Args[3])
@@ -442,4 +466,27 @@ func ruleParamEnable(c *Ctx) {
 			R.Ob(c.siteKey(site, a.label+" under its flag only"), c.P.InstrPos(site), len(cf) == 1 && cf[0] == a.flag+" == true", fmt.Sprintf("%s is reached under %v, want {%s == true}", a.label, cf, a.flag))
 		}
 	}
+}
+
+// capsFunc: the function that builds the EHLO capability list — handleGreet itself or a helper of it (the one that
+// stores the "PIPELINING" constant).
+func capsFunc(c *Ctx) *ssa.Function {
+	f0 := c.A.Func("(*Conn).handleGreet")
+	if f0 == nil {
+		return nil
+	}
+	for _, g := range c.withHelpers(f0) {
+		found := false
+		allInstrs(g, func(in ssa.Instruction) {
+			if st, ok := in.(*ssa.Store); ok {
+				if k, ok := constString(st.Val); ok && k == "PIPELINING" {
+					found = true
+				}
+			}
+		})
+		if found {
+			return g
+		}
+	}
+	return f0
 }
